@@ -130,7 +130,8 @@ Offset(X) ==
   CASE HistCall(X) = "none"   -> "zero"
     [] HistCall(X) = "top"    -> "top"
     [] HistCall(X) = "stream" -> "top"                  \* offset 2 is gone from history: not recovered, push carries the top
-    [] HistCall(X) = "cache"  -> IF "RecoverSince" \in X THEN "since" ELSE "zero"   \* recovered: push carries the requested offset
+    [] HistCall(X) = "cache"  -> "top"                  \* recovered: the push cannot carry publications, it announces the position
+                                                        \* the subscription continues from (/repo fix 255a1d9b; before: the requested offset)
 B(b) == IF b THEN "y" ELSE "n"
 PerConn(op, X) ==
   CASE op = "subscribe" ->
